@@ -199,6 +199,17 @@ func (w *World) afterCommit(t *simcore.Task, wt *WTxn, sn *Snap) {
 			continue
 		}
 		wa.stIdx = post.Idx
+		// a later transaction may already have changed the object while this Commit was returning
+		changedLater := false
+		chain := w.tables[wa.ti].M.Chain
+		for j := post.Idx + 1; j < len(chain); j++ {
+			if x, ok := chain[j].Objs[wa.objID]; !ok || x.Rev != mo.Rev {
+				changedLater = true
+			}
+		}
+		if changedLater {
+			continue
+		}
 		if isClosed(wa.ch) {
 			w.violate("C06", "insertwatch-closed-early", "the channel returned by InsertWatch(%q) in T%d is closed at the return of Commit although the object was not modified again", wa.objID, wt.id)
 			return
